@@ -278,17 +278,110 @@ fn lwe_strategy() -> BoxedStrategy<LweCase> {
         .boxed()
 }
 
+// ---------------------------------------------------------------------------
+// switching keys between secrets of different ring degrees (both <= N): the degrees the object
+// records must be the same for the compressed and the standard routine, and survive
+// serialisation and decompression
+// ---------------------------------------------------------------------------
+
+#[derive(Clone, Debug, Serialize, Deserialize)]
+pub struct DegCase {
+    pub be: Be,
+    pub log_n: u8,
+    pub in_shift: u8,
+    pub out_shift: u8,
+    pub rank_in: u8,
+    pub rank_out: u8,
+    pub seed: u64,
+}
+
+/// (input_degree, output_degree) of: standard key, compressed key, compressed key after write/read, decompressed key,
+/// decompressed key of the re-read object
+fn deg_run<B: FullBackend>(m: &poulpy_hal::layouts::Module<B>, c: &DegCase) -> Vec<(u32, u32)> {
+    use poulpy_core::layouts::compressed::GLWESwitchingKeyCompressed;
+    use poulpy_core::layouts::{Base2K, Degree, Dnum, Dsize, GLWESecret, GLWESwitchingKey, GLWESwitchingKeyDecompress, GLWESwitchingKeyDegrees, GLWESwitchingKeyLayout, Rank, TorusPrecision};
+    use poulpy_core::{EncryptionLayout, GLWESwitchingKeyCompressedEncryptSk, GLWESwitchingKeyEncryptSk};
+    use poulpy_hal::api::ScratchOwnedBorrow;
+    use poulpy_hal::layouts::{ReaderFrom, WriterTo};
+    let n = 1usize << c.log_n;
+    let (n_in, n_out) = (n >> c.in_shift, n >> c.out_shift);
+    let lay = GLWESwitchingKeyLayout { n: Degree(n as u32), base2k: Base2K(14), k: TorusPrecision(42), rank_in: Rank(c.rank_in as u32), rank_out: Rank(c.rank_out as u32), dnum: Dnum(2), dsize: Dsize(1) };
+    let enc = EncryptionLayout::new_from_default_sigma(lay).unwrap();
+    let mut xs = Source::new(seed32(c.seed, 1));
+    let mut sk_in = GLWESecret::alloc(Degree(n_in as u32), Rank(c.rank_in as u32));
+    sk_in.fill_ternary_prob(0.5, &mut xs);
+    let mut sk_out = GLWESecret::alloc(Degree(n_out as u32), Rank(c.rank_out as u32));
+    sk_out.fill_ternary_prob(0.5, &mut xs);
+    let mut scratch = pzv_be::dirty_scratch::<B>(m.glwe_switching_key_compressed_encrypt_sk_tmp_bytes(&lay).max(m.glwe_switching_key_encrypt_sk_tmp_bytes(&lay)) + (1 << 16));
+    let mut full = GLWESwitchingKey::alloc_from_infos(&lay);
+    m.glwe_switching_key_encrypt_sk(&mut full, &sk_in, &sk_out, &enc, &mut Source::new(seed32(c.seed, 3)), &mut Source::new(seed32(c.seed, 5)), scratch.borrow());
+    let mut comp = GLWESwitchingKeyCompressed::alloc_from_infos(&lay);
+    m.glwe_switching_key_compressed_encrypt_sk(&mut comp, &sk_in, &sk_out, seed32(c.seed, 9), &enc, &mut Source::new(seed32(c.seed, 3)), scratch.borrow());
+    let mut bytes = vec![];
+    comp.write_to(&mut bytes).unwrap();
+    let mut comp_rt = GLWESwitchingKeyCompressed::alloc_from_infos(&lay);
+    comp_rt.read_from(&mut &bytes[..]).unwrap();
+    let mut exp = GLWESwitchingKey::alloc_from_infos(&lay);
+    m.decompress_glwe_switching_key(&mut exp, &comp);
+    let mut exp_rt = GLWESwitchingKey::alloc_from_infos(&lay);
+    m.decompress_glwe_switching_key(&mut exp_rt, &comp_rt);
+    vec![
+        (full.input_degree().0, full.output_degree().0),
+        (comp.input_degree().0, comp.output_degree().0),
+        (comp_rt.input_degree().0, comp_rt.output_degree().0),
+        (exp.input_degree().0, exp.output_degree().0),
+        (exp_rt.input_degree().0, exp_rt.output_degree().0),
+    ]
+}
+
+pub fn deg_test(c0: &DegCase) -> Verdict {
+    let mut c = c0.clone();
+    c.log_n = c.log_n.clamp(4, 6);
+    c.in_shift %= 3;
+    c.out_shift %= 3;
+    c.rank_in = c.rank_in.clamp(1, 3);
+    c.rank_out = c.rank_out.clamp(1, 3);
+    let d = with_backend!(c.be, c.log_n, |m| deg_run(m, &c));
+    if d.iter().any(|x| *x != d[0]) {
+        return Verdict::fail(
+            "glwe_switching_key|secret-degrees-differ-from-standard",
+            format!(
+                "backend={}: (input_degree, output_degree) recorded by the standard routine {:?}, by the compressed routine {:?}, after write/read {:?}, after decompression {:?}, after write/read and decompression {:?} (secrets of degree {} and {})\ncase={c:?}",
+                c.be.name(),
+                d[0],
+                d[1],
+                d[2],
+                d[3],
+                d[4],
+                (1usize << c.log_n) >> c.in_shift,
+                (1usize << c.log_n) >> c.out_shift
+            ),
+        );
+    }
+    Verdict::pass(c.in_shift != c.out_shift, &["switching_key_degrees", c.be.name(), if c.in_shift != c.out_shift { "distinct_degrees" } else { "equal_degrees" }])
+}
+
+fn deg_strategy() -> BoxedStrategy<DegCase> {
+    (crate::c01::be_strategy(), 4u8..=6, 0u8..3, 0u8..3, 1u8..=3, 1u8..=3, any::<u64>())
+        .prop_map(|(be, log_n, in_shift, out_shift, rank_in, rank_out, seed)| DegCase { be, log_n, in_shift, out_shift, rank_in, rank_out, seed })
+        .boxed()
+}
+
 pub fn run_all(ctx: &Ctx) {
     let t = ctx.tier;
     ctx.run_sub("compressed_equals_standard", t.pick(6_000, 80_000), 64, strategy, test);
     ctx.run_sub("lwe_compressed_equals_standard", t.pick(20_000, 400_000), 64, lwe_strategy, lwe_test);
+    ctx.run_sub("switching_key_secret_degrees", t.pick(1_024, 16_000), 64, deg_strategy, deg_test);
 }
 
 pub fn replay(ctx: &Ctx, sub: &str, case: &serde_json::Value) -> i32 {
+    if sub == "switching_key_secret_degrees" {
+        return ctx.replay_case::<DegCase, _>(sub, case, deg_test);
+    }
     if sub == "lwe_compressed_equals_standard" {
         return ctx.replay_case::<LweCase, _>(sub, case, lwe_test);
     }
     ctx.replay_case::<Case, _>(sub, case, test)
 }
 
-pub const RULE: &str = "cases = (backend, compressed layout in {GLWE, GGLWE, GGSW, GLWE switching key, automorphism key, tensor key, GGLWE-to-GGSW key, blind-rotation key (CGGI; LWE dimension 1..6, binary block / probability / fixed-weight LWE secret; its GGSWs are read back through the public serialisation)}, N 8..128, radix 2..40 inside the backend domain, ranks 1..3 (in/out), dnum 1..3, dsize 1..2, every secret distribution, three noise settings, generated sk/xa/xe/pt seeds, with and without a write_to/read_from round trip of the compressed object). For the GGLWE-like layouts the compressed object is also decompressed into a receiver with fewer rows (admitted: res.dnum() <= other.dnum()), and automorphism keys use any odd Galois element in (-2N, 2N) whose value must survive compression, serialisation and decompression. Oracle: per cell, masks == fill_uniform from Source::new(stored seed) in column order (bit exact); exact phase == phase of the standard encryption's cell under the same error seed (exact torus equality: same plaintext, same error sample); digits normalised; decompression identical after serialisation; bytes identical on a second backend of the other family. non-trivial = at least two cells or rank >= 2. Sub-check lwe_compressed_equals_standard: (backend, LWE dimension 1..700, radix 2..40, 1..5 limbs, k residue, secret distribution, noise, seed): the compressed form (seed, body) of the standard lwe_encrypt_sk run with mask stream Source::new(seed), assembled through the public stream format, must decompress (into a garbage-filled receiver) to that ciphertext bit for bit, also after a serialisation round trip and on a second backend; non-trivial = dimension >= 2.";
+pub const RULE: &str = "cases = (backend, compressed layout in {GLWE, GGLWE, GGSW, GLWE switching key, automorphism key, tensor key, GGLWE-to-GGSW key, blind-rotation key (CGGI; LWE dimension 1..6, binary block / probability / fixed-weight LWE secret; its GGSWs are read back through the public serialisation)}, N 8..128, radix 2..40 inside the backend domain, ranks 1..3 (in/out), dnum 1..3, dsize 1..2, every secret distribution, three noise settings, generated sk/xa/xe/pt seeds, with and without a write_to/read_from round trip of the compressed object). For the GGLWE-like layouts the compressed object is also decompressed into a receiver with fewer rows (admitted: res.dnum() <= other.dnum()), and automorphism keys use any odd Galois element in (-2N, 2N) whose value must survive compression, serialisation and decompression. Oracle: per cell, masks == fill_uniform from Source::new(stored seed) in column order (bit exact); exact phase == phase of the standard encryption's cell under the same error seed (exact torus equality: same plaintext, same error sample); digits normalised; decompression identical after serialisation; bytes identical on a second backend of the other family. non-trivial = at least two cells or rank >= 2. Sub-check lwe_compressed_equals_standard: (backend, LWE dimension 1..700, radix 2..40, 1..5 limbs, k residue, secret distribution, noise, seed): the compressed form (seed, body) of the standard lwe_encrypt_sk run with mask stream Source::new(seed), assembled through the public stream format, must decompress (into a garbage-filled receiver) to that ciphertext bit for bit, also after a serialisation round trip and on a second backend; non-trivial = dimension >= 2. Sub-check switching_key_secret_degrees: (backend, N 16..64, secrets of degree N, N/2 or N/4 on either side, ranks 1..3): the (input, output) secret degrees recorded by glwe_switching_key_compressed_encrypt_sk must equal those recorded by the standard routine and survive write/read and decompression; non-trivial = distinct degrees.";
